@@ -104,6 +104,28 @@ func main() {
 			fmt.Println(err)
 			os.Exit(2)
 		}
+	case "gen-pinned":
+		// freezes the declaration table of the tree as it is now (run on the pinned tree; the file is committed)
+		genPinnedMode = true
+		u1, err := loadUniverse("U1", BuildConfig{Name: "default"}, false)
+		if err != nil {
+			fmt.Println(err)
+			os.Exit(2)
+		}
+		u2, err := loadUniverse("U2", BuildConfig{Name: "default"}, false)
+		if err != nil {
+			fmt.Println(err)
+			os.Exit(2)
+		}
+		out := "/verif/checker/pinned_names.json"
+		if len(rest) == 1 {
+			out = rest[0]
+		}
+		if err := genPinned([]*Universe{u1, u2}, out); err != nil {
+			fmt.Println(err)
+			os.Exit(2)
+		}
+		fmt.Println("wrote", out)
 	case "manifest":
 		if err := writeManifest(); err != nil {
 			fmt.Println(err)
